@@ -12,13 +12,22 @@ EXTENDS CpuKinds, Json, IOUtils
 
 T == ndJsonDeserialize(IOEnv.TRACE)
 
+\* Strict = TRUE additionally compares every logged state with the constructive transcription of cpukinds.c
+\* (order of unranked kinds, order of infos, efficiencies chosen by the info heuristics).  A line that is only
+\* rejected under Strict is a SPEC-DRIFT (the model does not mirror the code), never a violation: tools/props/c15.py
+\* validates such a behaviour again with Strict = FALSE and only that verdict counts.
+CONSTANT Strict
+
 VARIABLES l,      \* next line
           am,     \* atom map [lo, hi] of the behaviour
           req,    \* summary of the accepted registrations
           topo,   \* atoms of the topology cpuset
-          cur     \* state record logged by the previous event
+          cur,    \* state record logged by the previous event
+          mk      \* kinds of the constructive model (NoModel after loading an input with unknown registrations)
 
-vars == <<l, am, req, topo, cur>>
+vars == <<l, am, req, topo, cur, mk>>
+NoModel == [ok |-> FALSE, ks |-> <<>>]
+EmptyModel == [ok |-> TRUE, ks |-> <<>>]
 
 \* ---- atoms ----
 NAtoms(m) == Len(m.lo)
@@ -71,8 +80,12 @@ StateOK(m, st, rq, tp) ==
   /\ SetAtoms(m, st.topo) = tp
   /\ KindsOK(PK(m, st), rq)
 
+\* steering model vs. implementation (only under Strict)
+Mirrors(m, st, nmk) == ~Strict \/ ~nmk.ok \/ Proj(nmk.ks) = PK(m, st)
+Model(x) == IF mk.ok THEN [ok |-> TRUE, ks |-> x] ELSE mk
+
 ----------------------------------------------------------------------------
-Init == l = 1 /\ am = [lo |-> <<0>>, hi |-> <<-1>>] /\ req = <<>> /\ topo = {} /\ cur = <<>>
+Init == l = 1 /\ am = [lo |-> <<0>>, hi |-> <<-1>>] /\ req = <<>> /\ topo = {} /\ cur = <<>> /\ mk = EmptyModel
 
 IsEvent(e) == l <= Len(T) /\ T[l].e = e /\ l' = l + 1
 
@@ -90,7 +103,9 @@ TReset ==
         /\ IF e.kind = "synth"
            THEN /\ req' = ReqInit(AtomsOf(m))
                 /\ StateOK(m, e.st, req', topo')
-           ELSE /\ QueriesOK(m, e.st)
+                /\ mk' = EmptyModel
+           ELSE /\ mk' = NoModel
+                /\ QueriesOK(m, e.st)
                 /\ SetExact(m, e.ccs)
                 /\ KindsShapeOK(PK(m, e.st), SetAtoms(m, e.ccs))
                 /\ req' = ReqFromKinds(AtomsOf(m), PK(m, e.st))
@@ -105,10 +120,12 @@ TRegister ==
         /\ IF RegisterRejected(S, e.null = 1, e.flags)
            THEN /\ e.ret = Einval
                 /\ e.st = cur                                        \* rejected: nothing changed
-                /\ UNCHANGED req
+                /\ UNCHANGED <<req, mk>>
            ELSE /\ e.ret = OK0
                 /\ req' = ReqRegister(req, S, e.fe, e.infos)
                 /\ StateOK(am, e.st, req', topo)
+                /\ mk' = Model(RegisterDo(mk.ks, S, e.fe, e.infos))
+                /\ Mirrors(am, e.st, mk')
         /\ cur' = e.st
   /\ UNCHANGED <<am, topo>>
 
@@ -123,11 +140,13 @@ TRestrict ==
         /\ IF S \cap topo = {}
            THEN /\ e.ret = Einval
                 /\ e.st = cur
-                /\ UNCHANGED <<req, topo>>
+                /\ UNCHANGED <<req, topo, mk>>
            ELSE /\ e.ret = OK0
                 /\ topo' = topo \cap S
                 /\ req' = ReqRestrict(req, topo')
                 /\ StateOK(am, e.st, req', topo')
+                /\ mk' = Model(RestrictDo(mk.ks, topo'))
+                /\ Mirrors(am, e.st, mk')
         /\ cur' = e.st
   /\ UNCHANGED am
 
@@ -139,7 +158,7 @@ TDup ==
         /\ e.ret = OK0
         /\ e.other = cur
         /\ e.st = cur
-  /\ UNCHANGED <<am, req, topo, cur>>
+  /\ UNCHANGED <<am, req, topo, cur, mk>>
 
 \* export to an XML buffer, load it in a new topology: the property keeps holding for the same registrations
 TXml ==
@@ -148,6 +167,8 @@ TXml ==
         /\ e.var \in {0, 1}
         /\ e.ret = <<0, 0, 0, 0>>
         /\ StateOK(am, e.st, req, topo)
+        /\ mk' = Model(XmlDo(mk.ks))
+        /\ Mirrors(am, e.st, mk')
         /\ cur' = e.st
   /\ UNCHANGED <<am, req, topo>>
 
@@ -157,6 +178,8 @@ TRefresh ==
   /\ LET e == T[l] IN
         /\ e.ret = OK0
         /\ StateOK(am, e.st, req, topo)
+        /\ mk' = Model(Rank(mk.ks))
+        /\ Mirrors(am, e.st, mk')
         /\ cur' = e.st
   /\ UNCHANGED <<am, req, topo>>
 
